@@ -654,7 +654,8 @@ def shim(names):
         saved.append((cls, attr, cls.__dict__[attr]))
         setattr(cls, attr, val)
     try:
-        if "store-checks-widget-not-canvas" in names or "pile-hidden-child" in names or "columns-hidden-child" in names:
+        if "store-checks-widget-not-canvas" in names or "pile-hidden-child" in names or "columns-hidden-child" in names \
+                or "frame-hidden-child" in names or "overlay-hidden-top" in names:
             orig_store = CanvasCache.__dict__["store"].__func__
 
             def kids(canv):
@@ -682,6 +683,29 @@ def shim(names):
                 return canv
             patch(urwid.Pile, "render", pile_render)
             setattr(urwid.Pile, "render", wm.cache_widget_render(urwid.Pile))
+        if "frame-hidden-child" in names:
+            frame_fn = urwid.Frame.render.original_fn
+
+            def frame_render(self, size, focus=False):
+                canv = frame_fn(self, size, focus)
+                parts = [p for p in (self.header, self.body, self.footer) if p is not None]
+                if len(canv.children) < len(parts):
+                    canv = CompositeCanvas(canv)
+                    canv.cacheable = False
+                return canv
+            patch(urwid.Frame, "render", frame_render)
+            setattr(urwid.Frame, "render", wm.cache_widget_render(urwid.Frame))
+        if "overlay-hidden-top" in names:
+            ov_fn = urwid.Overlay.render.original_fn
+
+            def ov_render(self, size, focus=False):
+                canv = ov_fn(self, size, focus)
+                if len(canv.children) < 2:      # the top widget was not rendered (empty bottom canvas)
+                    canv = CompositeCanvas(canv)
+                    canv.cacheable = False
+                return canv
+            patch(urwid.Overlay, "render", ov_render)
+            setattr(urwid.Overlay, "render", wm.cache_widget_render(urwid.Overlay))
         if "columns-hidden-child" in names:
             cols_fn = urwid.Columns.render.original_fn
 
@@ -703,7 +727,7 @@ def shim(names):
 # the recorded, unrepaired defects (cache-design changes).  Defects repaired in /repo (Edit/Text focus-blind cache entry,
 # ListBox.set_focus_valign, GraphVScale.set_scale, BarGraph.set_segment_attributes, GridFlow.pack) have no shim any more:
 # if one of them comes back it is reported as [root cause: unexplained], i.e. as a new violation.
-ROOT_CAUSES = [["store-checks-widget-not-canvas"], ["pile-hidden-child"], ["columns-hidden-child"]]
+ROOT_CAUSES = [["store-checks-widget-not-canvas"], ["pile-hidden-child"], ["columns-hidden-child"], ["frame-hidden-child"], ["overlay-hidden-top"]]
 
 
 def run_real(case):
